@@ -559,6 +559,26 @@ def _inline_pass(tree: ast.Module, helpers, counter, log, mod) -> bool:
                     h_.body = process_block(h_.body, cls_ctx, in_helper)
             call = None
             kind = None
+            # `if helper(...):` / `elif helper(...):` with a multi-statement helper: its verdict is taken
+            # into a local first (an elif becomes `else: v = helper(..); if v:`)
+            if isinstance(st, ast.If):
+                tcall = st.test.operand if isinstance(st.test, ast.UnaryOp) and isinstance(st.test.op, ast.Not) else st.test
+                if isinstance(tcall, ast.Call):
+                    h0, _m0 = _find_helper(tcall, helpers, cls_ctx)
+                    if h0 is not None and not h0.single_expr and h0.node is not getattr(in_helper, "node", None):
+                        counter[0] += 1
+                        tmp = f"_inl{counter[0]}_verdict"
+                        pre_ = ast.copy_location(ast.Assign(targets=[ast.Name(id=tmp, ctx=ast.Store())], value=tcall), st)
+                        nm_ = ast.copy_location(ast.Name(id=tmp, ctx=ast.Load()), tcall)
+                        if tcall is st.test:
+                            st.test = nm_
+                        else:
+                            st.test.operand = nm_
+                        ast.fix_missing_locations(pre_)
+                        out.extend(process_block([pre_], cls_ctx, in_helper))
+                        out.append(st)
+                        changed = True
+                        continue
             # hoist `recv.m(helper(...))` / `x = f(helper(...))`: the helper call becomes its own
             # assignment when everything evaluated before it is a plain read
             outer = st.value if isinstance(st, (ast.Expr, ast.Assign)) and isinstance(getattr(st, "value", None), ast.Call) else None
@@ -1057,7 +1077,7 @@ def _local_normal_forms(tree: ast.Module, log: List[str], mod: str, inv: Set[str
                         and stores.get(st.targets[0].id, 0) == 1 and loads.get(st.targets[0].id, 0) == 1 \
                         and st.targets[0].id not in params and isinstance(nxt, (ast.Return, ast.Assign, ast.Expr, ast.If)) \
                         and not isinstance(st.value, (ast.Lambda, ast.ListComp, ast.DictComp, ast.SetComp, ast.GeneratorExp,
-                                                      ast.List, ast.Dict, ast.Set)):
+                                                      ast.List, ast.Dict, ast.Set)) and not _maybe_new_helper_call(st.value, inv):
                     nm = st.targets[0].id
                     root = nxt.test if isinstance(nxt, ast.If) else nxt.value
                     if root is not None:
@@ -1079,6 +1099,37 @@ def _local_normal_forms(tree: ast.Module, log: List[str], mod: str, inv: Set[str
                             log.append(f"{mod}: single-use local {nm} in {fn.name} folded into the next statement")
                             continue
                 i += 1
+        # N19 (jump threading): `if c: A; v = True else: B; v = False` followed by `if v: X else: Y`
+        # (v read nowhere else)  ->  `if c: A; X else: B; Y`
+        for blk in _blocks(fn):
+            i = 0
+            while i + 1 < len(blk):
+                s1, s2 = blk[i], blk[i + 1]
+                if isinstance(s1, ast.If) and isinstance(s2, ast.If) and s1.body and s1.orelse:
+                    t2 = s2.test
+                    neg2 = isinstance(t2, ast.UnaryOp) and isinstance(t2.op, ast.Not)
+                    v2 = t2.operand if neg2 else t2
+                    if isinstance(v2, ast.Name) and loads.get(v2.id, 0) == 1:
+                        def tail_const(b):
+                            t = b[-1]
+                            if isinstance(t, ast.Assign) and len(t.targets) == 1 and isinstance(t.targets[0], ast.Name) \
+                                    and t.targets[0].id == v2.id and isinstance(t.value, ast.Constant) and isinstance(t.value.value, bool):
+                                return t.value.value
+                            return None
+                        a, b = tail_const(s1.body), tail_const(s1.orelse)
+                        if a is not None and b is not None:
+                            def arm(val):
+                                taken = (not val) if neg2 else val
+                                return [_clone(x) for x in (s2.body if taken else s2.orelse)]
+                            s1.body = s1.body[:-1] + arm(a) or [ast.Pass()]
+                            s1.orelse = s1.orelse[:-1] + arm(b) or [ast.Pass()]
+                            if not s1.body:
+                                s1.body = [ast.Pass()]
+                            del blk[i + 1]
+                            loads[v2.id] = 0
+                            log.append(f"{mod}: verdict flag {v2.id} in {fn.name} threaded into its branches")
+                            continue
+                i += 1
         # N18: `x = E` directly followed by `<target> = x` (x used nowhere else) -> `<target> = E`
         for blk in _blocks(fn):
             i = 0
@@ -1087,7 +1138,7 @@ def _local_normal_forms(tree: ast.Module, log: List[str], mod: str, inv: Set[str
                 if isinstance(st, ast.Assign) and len(st.targets) == 1 and isinstance(st.targets[0], ast.Name) \
                         and isinstance(nxt, ast.Assign) and isinstance(nxt.value, ast.Name) and nxt.value.id == st.targets[0].id \
                         and stores.get(st.targets[0].id, 0) == 1 and loads.get(st.targets[0].id, 0) == 1 \
-                        and st.targets[0].id not in params:
+                        and st.targets[0].id not in params and not _maybe_new_helper_call(st.value, inv):
                     nxt.value = st.value
                     del blk[i]
                     log.append(f"{mod}: forwarding local {st.targets[0].id} in {fn.name} removed")
@@ -1224,6 +1275,18 @@ def _alias_read(e: ast.AST) -> bool:
     if isinstance(e, ast.BinOp) and isinstance(e.op, (ast.Add, ast.Sub)):
         return _alias_read(e.left) and _alias_read(e.right)
     return False
+
+
+def _maybe_new_helper_call(e: ast.AST, inv: Set[str]) -> bool:
+    """A call of a private function that is not in the inventory: it is left at statement level so
+    that the helper inliner can unfold it."""
+    if not isinstance(e, ast.Call):
+        return False
+    f = e.func
+    name = f.id if isinstance(f, ast.Name) else (f.attr if isinstance(f, ast.Attribute) else None)
+    if not name or not name.startswith("_") or name.startswith("__"):
+        return False
+    return name not in inv and not any(k.endswith("." + name) for k in inv)
 
 
 def _eval_order(e: ast.AST):
